@@ -11,6 +11,9 @@
       relation proved by induction on derivations (`Lemmas/GrammarInv.lean`,
       `Lemmas/GrammarRuns.lean`);
   (F) non-vacuity: concrete accepted / rejected strings, evaluated in the kernel.
+  The repair of `parse_const` (a number word `inf` / `nan` directly followed by a letter is not a
+  number, so names like `info`, `nano` are no longer shadowed) is covered by `parseConst_sound`
+  and `parseConst_spec` in part (A); no statement of parts (A)–(D) had to change.
   (E), the list parsers, is `Thm/C18.lean`.
 -/
 import Cav.Lemmas.ParseSound
@@ -70,6 +73,63 @@ theorem lexDouble_sound (s rest : List Char) (t : E) (h : lexDouble s = some (re
 
 theorem negCount_no_minus (s : List Char) : (negCount s).2.head? ≠ some '-' :=
   (negCount_spec s).2
+
+/-- `parse_const` (= `double` plus the guard "a number word directly followed by a letter is not a
+    number") accepts only what `lexDouble` accepts, hence only number leaves -/
+theorem parseConst_sound (s rest : List Char) (t : E) (h : parseConst s = some (rest, t))
+    (hneg : s.head? ≠ some '-') : ∃ pre, s = pre ++ rest ∧ NumLeaf t pre :=
+  ParseSound.parseConst_sound h hneg
+
+/-- WHAT THE REPAIR OF `parse_const` CHANGES, exactly: on an input that does not start with '-'
+    (`parse_term` has removed the minus signs) `parseConst` differs from `lexDouble` — the
+    behaviour before the repair — if and only if `lexDouble` returns one of the number words
+    (`nan`, `inf`, any case) AND the rest starts with an ASCII letter; then `parseConst` fails,
+    and `parse_term` goes on to `parse_func` / `parse_var`.  (The code tests "the consumed text
+    ends with a letter"; a decimal literal ends with a digit or '.', `Grammar.numLeaf_last`.) -/
+theorem parseConst_spec (s : List Char) (hneg : s.head? ≠ some '-') :
+    parseConst s =
+      match lexDouble s with
+      | some (rest, t) => if isWord t && startsWithAlpha rest then none else some (rest, t)
+      | none => none := by
+  unfold parseConst
+  cases hl : lexDouble s with
+  | none => rfl
+  | some p =>
+    obtain ⟨r, t⟩ := p
+    obtain ⟨pre, hs, hn⟩ := ParseSound.lexDouble_sound hl hneg
+    have htake : s.take (s.length - r.length) = pre := by rw [hs]; simp
+    have hend : endsWithAlpha pre = isWord t := by
+      obtain ⟨c, hc, hiff⟩ := numLeaf_last hn
+      unfold endsWithAlpha; rw [hc]; exact hiff
+    simp only [htake, hend]
+
+/-- in particular nothing changes for an input on which `double` did not match a number word … -/
+theorem parseConst_eq_lexDouble_of_not_word (s : List Char) (hneg : s.head? ≠ some '-')
+    (h : ∀ rest t, lexDouble s = some (rest, t) → isWord t = false) : parseConst s = lexDouble s := by
+  rw [parseConst_spec s hneg]
+  cases hl : lexDouble s with
+  | none => rfl
+  | some p => obtain ⟨r, t⟩ := p; simp [h r t hl]
+
+/-- … or matched one that is not directly followed by a letter -/
+theorem parseConst_eq_lexDouble_of_stop (s : List Char) (hneg : s.head? ≠ some '-')
+    (h : ∀ rest t, lexDouble s = some (rest, t) → startsWithAlpha rest = false) :
+    parseConst s = lexDouble s := by
+  rw [parseConst_spec s hneg]
+  cases hl : lexDouble s with
+  | none => rfl
+  | some p => obtain ⟨r, t⟩ := p; simp [h r t hl]
+
+example : lexDouble "info+1".toList = some ("o+1".toList, .litInf) := by decide
+example : parseConst "info+1".toList = none := by decide
+example : parseConst "inf+1".toList = some ("+1".toList, .litInf) := by decide
+example : parseConst "NaN)".toList = some (")".toList, .litNan) := by decide
+example : parseConst "nanometre".toList = none := by decide
+example : parseConst "infinity".toList = none := by decide
+/-- the guard looks at the text `double` consumed, not at what `double` returned: an exponent
+    marker is inside the literal, and a literal followed by a letter is still a number -/
+example : parseConst "2e3x".toList = some ("x".toList, .lit 2 3) := by decide
+example : parseConst "2.x".toList = some ("x".toList, .lit 2 0) := by decide
 
 /-- the hypothesis of `lexDouble_sound` cannot be dropped: the signed branch leaves the grammar -/
 example : lexDouble "-5".toList = some ([], .un .neg (.lit 5 0)) := by decide
@@ -440,5 +500,34 @@ example : ∃ e, compile 1 xctx "2*x(3)".toList = .error e :=
     `e`, `nan`, `inf` are unknown names and still accepted, as parts of number tokens -/
 example : compile 0 [] "2e3".toList = .ok (.lit 2 3) := of_okIs (by decide +kernel)
 example : compile 0 [] "NaN+Inf".toList = .ok (.bin .add .litNan .litInf) := of_okIs (by decide +kernel)
+
+/-! ### names that start with a number word (the repaired `parse_const`) -/
+
+/-- a context with such names -/
+def wctx : Ctx := xctx.insert "info" .const |>.insert "nano" (.var 0) |>.insert "infimum" .uop
+
+/-- the whole name is looked up (before the repair all three were `.error .residue` resp.
+    `.error .parsing`: `inf` / `nan` was taken as a number and the remaining letters were left over) -/
+example : compile 1 wctx "info+1".toList = .ok (.bin .add (.cst "info") (.lit 1 0)) :=
+  of_okIs (by decide +kernel)
+example : compile 1 wctx "2*-nano^info".toList =
+    .ok (.bin .mul (.lit 2 0) (.un .neg (.bin .pow (.var 0) (.cst "info")))) := of_okIs (by decide +kernel)
+example : compile 1 wctx "infimum(inf)/NaN".toList =
+    .ok (.bin .div (.un (.user "infimum") .litInf) .litNan) := of_okIs (by decide +kernel)
+/-- an unregistered name that starts with a number word is rejected like any unknown name
+    (`unknown_name_rejected` applies: the run is not `nan` / `inf`) — now as a parsing error at the
+    name; before the repair as a residue after the number `inf` -/
+example : ∃ e, compile 1 xctx "2*infx".toList = .error e :=
+  unknown_name_rejected 1 xctx _ (pre := "2*".toList) (w := "infx".toList) (post := [])
+    (maxRun_of_check _ _ _ _ (by decide +kernel) (by decide +kernel) (by decide +kernel) (by decide +kernel) (by decide +kernel))
+    (by decide +kernel) (by decide +kernel) (by decide +kernel) (by decide +kernel)
+example : compile 1 xctx "2*infx".toList = .error .parsing := of_errIs (by decide +kernel)
+example : compile 1 xctx "infinity".toList = .error .parsing := of_errIs (by decide +kernel)
+/-- a registered name is case-sensitive, the number words are not -/
+example : compile 1 wctx "Info".toList = .error .parsing := of_errIs (by decide +kernel)
+example : compile 1 wctx "INF".toList = .ok .litInf := of_okIs (by decide +kernel)
+/-- a name that IS a number word stays shadowed (this is what `Grammar.CtxOK'` excludes) -/
+example : compile 1 (xctx.insert "inf" .const) "inf".toList = .ok .litInf := of_okIs (by decide +kernel)
+example : compile 1 (xctx.insert "nan" .uop) "nan(1)".toList = .error .residue := of_errIs (by decide +kernel)
 
 end Cav.C17
